@@ -148,6 +148,12 @@ let () =
                     confirmed = 0; benign = true; sentinel = ""; prev_tpath = []; prev_twd = []; last_was_process = false; dead = false;
                     ended_watches = []; emitted = []; stores = []; nstores = 0; overflowed = false };
       bump (if recurse then "histories_recursive" else "histories_plain")
+    | ["pl"; a; r], _ ->
+      (* direct correspondence of PathLex.clean with filepath.Clean (what Add / Remove apply to their argument) *)
+      bump "pathlex_cases";
+      let arg = unhex a and impl = unhex r in
+      let m = string_of_chars (x_clean (chars_of_string arg)) in
+      if m <> impl then emit "MISMATCH" "pathlex-clean" 0 0 (Printf.sprintf "arg=%s impl=%s model=%s" (String.escaped arg) (String.escaped impl) (String.escaped m))
     | ["end"], Some _ -> finish ()
     | _, Some h when h.dead -> ()
     | "abort" :: _, Some h -> emit "MISMATCH" "stalled" h.id h.stepno "impl=reader-stalled model=-"; h.dead <- true
